@@ -2,6 +2,7 @@ package generic
 
 import (
 	"fmt"
+	"strings"
 	"sync"
 
 	"verifharness/circuits"
@@ -50,7 +51,8 @@ func compileOnce(circuit, builder, field string) CompileDetRec {
 func CompileDet(args common.Args, out *common.Out) error {
 	k := args.Int("k", 8)
 	par := args.Int("par", 8)
-	fields := []string{args.Get("field", "bn254")}
+	fields := strings.Split(args.Get("field", "bn254"), ",") // compiled in this order, in this one process
+	kMany := args.Int("kmany", 200)
 	only := args.Get("circuit", "")
 	type job struct{ circuit, builder, field string }
 	var jobs []job
@@ -72,7 +74,11 @@ func CompileDet(args common.Args, out *common.Out) error {
 	}
 	// sequential
 	for _, j := range jobs {
-		for run := 0; run < k; run++ {
+		kk := k
+		if circuits.CorpusByName(j.circuit).Many {
+			kk = kMany
+		}
+		for run := 0; run < kk; run++ {
 			r := compileOnce(j.circuit, j.builder, j.field)
 			r.Mode, r.Run = "seq", run
 			out.Emit(r)
@@ -81,7 +87,11 @@ func CompileDet(args common.Args, out *common.Out) error {
 	// parallel: same circuit from many goroutines at once
 	for _, j := range jobs {
 		var wg sync.WaitGroup
-		for run := 0; run < par; run++ {
+		pp := par
+		if circuits.CorpusByName(j.circuit).Many {
+			pp = kMany / 2
+		}
+		for run := 0; run < pp; run++ {
 			wg.Add(1)
 			go func(run int) {
 				defer wg.Done()
